@@ -1,4 +1,5 @@
 import BFL.Proofs.Bounds
+import BFL.Proofs.BoundsSigma
 /-
 C14 — no operation reads or writes outside its matrices or mixes incompatible sizes.
 
@@ -189,5 +190,80 @@ theorem grid_refuses (nx ny N : Nat) (L : Layout) (h : L.dim ≠ 4) :
   split
   · exact ⟨_, rfl⟩
   · simp [b01]
+
+/-! ## sigma_point, unscented_transform -/
+
+/-- Every layout (linear, circular Euler / quaternion, noise-augmented), every component count ≥ 1. -/
+theorem safe_sigma_point (K : Nat) (L : Layout) (h : spValid K L) : (spCase K L).Safe := by
+  obtain ⟨hK, hd⟩ := h
+  unfold spCase
+  simp only [safe_bind, safe_pure, and_true]
+  exact ⟨mkGM_safe K L (Or.inl hK), sigmaPoint_safe L K hd⟩
+
+/-- … and returns `dim × (2·dim_covariance + 1)·components` sigma points. -/
+theorem sigma_point_shape (K : Nat) (L : Layout) : (sigmaPoint L K).val = ⟨L.dim, (L.dcov * 2 + 1) * K⟩ :=
+  sigmaPoint_val L K
+
+/-- The generic transform, for every input layout (incl. noise-augmented, quaternion) and every output description. -/
+theorem safe_unscented_transform (K : Nat) (I : Layout) (wdof : Nat) (O : Layout) (prows dcols : Nat) (fvalid : Bool)
+    (h : utValid K I wdof O prows dcols) : (utCase K I wdof O prows dcols fvalid).Safe := by
+  obtain ⟨hK, hd, hw, hO, hp, hc⟩ := h
+  unfold utCase
+  simp only [safe_bind, safe_pure, and_true]
+  refine ⟨mkGM_safe K I (Or.inl hK), utGeneric_safe I K _ O _ fvalid hd (by simp [utWeightSize, hw]) hO (by simp [hp, hc])⟩
+
+/-- A failed function evaluation is reported (`false`, default mixture, empty cross covariance) without touching anything. -/
+theorem unscented_transform_failure (K : Nat) (I : Layout) (wdof : Nat) (O : Layout) (prows dcols : Nat) :
+    (utCase K I wdof O prows dcols false).val = some UTRes.failed.tokens := by
+  simp [utCase, utGeneric_val]
+
+/-- Through a linear state model (generic `StateModel&` and `AdditiveStateModel&` overloads). -/
+theorem safe_unscented_transform_state_model (additive : Bool) (K : Nat) (I : Layout) (wdof fn fq : Nat) (D : Layout)
+    (h : utsmValid K I wdof fn fq D) : (utsmCase additive K I wdof fn fq D).Safe := by
+  obtain ⟨hK, hfn, hfq, hw, hI, hD, hdim, hdc⟩ := h
+  subst hI hfq
+  unfold utsmCase
+  have hl : ltiStateOk fq fq = true := by simp [ltiStateOk]; omega
+  rw [hl]
+  simp only [safe_bind, Bool.not_true, Bool.false_eq_true, if_false, safe_pure, and_true]
+  refine ⟨mkGM_safe K I (Or.inl hK), ?_⟩
+  have hw' : utWeightSize wdof = 2 * I.dcov + 1 := by simp [utWeightSize, hw]
+  cases additive with
+  | true => exact utStateAdditive_safe I K _ ⟨⟨fq, fq⟩, fq, I⟩ (by omega) hw' hD (by simp [hdim]) rfl (by simp [hdc])
+  | false => exact utStateGeneric_safe I K _ ⟨⟨fq, fq⟩, fq, I⟩ (by omega) hw' hD (by simp [hdim]) rfl (by simp [hdim])
+
+/-- Through `WhiteNoiseAcceleration` of every `Dim`. -/
+theorem safe_unscented_transform_wna (additive : Bool) (d : Dim) (K dl dn wdof : Nat)
+    (h : utwnaValid d K dl dn wdof) : (utwnaCase additive d K dl dn wdof).Safe := by
+  obtain ⟨hK, hdl, hdn, hw⟩ := h
+  subst hdl hdn hw
+  have hc := safe_wna_ctor d
+  unfold utwnaCase
+  simp only [safe_bind, safe_pure, and_true, hc, true_and]
+  refine ⟨mkGM_safe K _ (Or.inl hK), ?_⟩
+  have hdim : (Layout.mk d.n 0 false 0).dim = d.n := by simp [Layout.dim]
+  have hdcov : (Layout.mk d.n 0 false 0).dcov = d.n := by simp [Layout.dcov]
+  have hw' : utWeightSize d.n = 2 * (Layout.mk d.n 0 false 0).dcov + 1 := by simp [utWeightSize, hdcov]
+  have h1 : 1 ≤ (Layout.mk d.n 0 false 0).dcov := by rw [hdcov]; cases d <;> simp [Dim.n]
+  cases additive with
+  | true =>
+    apply utStateAdditive_safe _ K _ _ h1 hw' <;> cases d <;> simp [wnaCtor, ldltSqrt, Dim.n, Layout.dim, Layout.dcov, Layout.tc, Layout.cc]
+  | false =>
+    apply utStateGeneric_safe _ K _ _ h1 hw' <;> cases d <;> simp [wnaCtor, ldltSqrt, Dim.n, Layout.dim, Layout.dcov, Layout.tc, Layout.cc]
+
+/-- Through a measurement model (generic and additive overloads; a failed prediction returns before any post-processing). -/
+theorem safe_unscented_transform_measurement_model (additive : Bool) (K : Nat) (I : Layout) (wdof : Nat) (M : MMod)
+    (h : utmmValid additive K I wdof M) : (utmmCase additive K I wdof M).Safe := by
+  obtain ⟨hK, hd, hw, hO, hp, hc, hr⟩ := h
+  unfold utmmCase
+  simp only [safe_bind, safe_pure, and_true]
+  refine ⟨mkGM_safe K I (Or.inl hK), ?_⟩
+  have hw' : utWeightSize wdof = 2 * I.dcov + 1 := by simp [utWeightSize, hw]
+  cases additive with
+  | true => exact utMeasAdditive_safe I K _ M hd hw' hO hp hc (hr rfl)
+  | false => exact utMeasGeneric_safe I K _ M hd hw' hO hp hc
+
+example : spValid 2 ⟨1, 2, true, 2⟩ := by decide
+example : utValid 2 ⟨2, 1, true, 1⟩ 6 ⟨1, 1, true, 0⟩ 5 0 := by decide
 
 end BFL.Bounds
